@@ -213,6 +213,27 @@ def req(op, **kw):
     return op + " " + json.dumps(kw, separators=(",", ":"))
 
 
+_MERGE_ORDER_CACHE = {}
+
+
+def model_merge_order(names):
+    """visiting order of per-chromosome part files as indices into `names`, computed by the C06 model
+    (Model/Schedule.lean mergeOrder through the driver) - never a harness-side re-implementation of the sort key"""
+    key = tuple(names)
+    if key not in _MERGE_ORDER_CACHE:
+        out = Driver().run([req("C06.merge_order", names=list(names))])[0]
+        if not isinstance(out, list) or sorted(out) != sorted(names):
+            raise RuntimeError("C06.merge_order returned %r for %r" % (out, names))
+        left = list(range(len(names)))
+        order = []
+        for nm in out:                      # stable for duplicate names
+            i = next(k for k in left if names[k] == nm)
+            left.remove(i)
+            order.append(i)
+        _MERGE_ORDER_CACHE[key] = order
+    return list(_MERGE_ORDER_CACHE[key])
+
+
 def canon(x):
     """tuples -> lists, for comparison with JSON"""
     if isinstance(x, (tuple, list)):
